@@ -253,14 +253,18 @@ func diffSection(a, b []byte, ia *encInfo) string {
 	if len(b) < n {
 		n = len(b)
 	}
-	i := 0
+	if n < 8 {
+		return "header"
+	}
+	if string(a[:4]) != string(b[:4]) {
+		return "magic"
+	}
+	// The string-section offset (bytes 4..8) changes whenever any length changes: look past it first.
+	i := 8
 	for i < n && a[i] == b[i] {
 		i++
 	}
-	if i < 4 {
-		return "magic"
-	}
-	if i < 8 {
+	if i == n && len(a) == len(b) {
 		return "string-offset"
 	}
 	if !ia.ok {
